@@ -234,6 +234,7 @@ let storage_handlers = [
   ("clearfail", (fun _ -> emit "clearfail"));
   ("dirty", (fun _ -> emit "*"));
   ("know", (fun _ -> emit "know"));
+  ("nop", (fun _ -> emit "nop"));
   ("cfgnext", (function [kv] -> (match String.split_on_char '=' kv with ["init"; v] -> st_lazy := (v = "lazy") | _ -> ()); emit "cfgnext" | _ -> emit "cfgnext"));
   ("flip", (fun _ -> emit "*"));
   ("patch", (fun _ -> emit "*"));
